@@ -1,23 +1,28 @@
 import VyxalModel.Model.Parser
-/-! Positional codecs of `vyxal/helpers.py`. -/
+/-! Positional codecs of `vyxal/helpers.py` and the `τ` (`to_base`) element of `vyxal/elements.py`. -/
 namespace Vy
 
-/-- `helpers.to_base_digits`: most significant digit first (`while n >= base: divmod`) -/
-def toDigitsAux (b : Nat) : Nat → Nat → List Nat → List Nat
-  | 0, n, acc => n :: acc
-  | fuel + 1, n, acc => if n ≥ b then toDigitsAux b fuel (n / b) (n % b :: acc) else n :: acc
+/-- `helpers.to_base_digits`: `while n >= base: n, digit = divmod(n, base)`; most significant digit first.
+    (For `base < 2` the Python loop does not terminate; the model answers `[n]` and every theorem assumes `2 ≤ base`.) -/
+def toDigits (b : Nat) (n : Nat) : List Nat :=
+  if h : b < 2 then [n] else
+  if n < b then [n] else toDigits b (n / b) ++ [n % b]
+termination_by n
+decreasing_by
+  have : 2 ≤ b := by omega
+  exact Nat.div_lt_self (by omega) (by omega)
 
-def toDigits (b n : Nat) : List Nat := toDigitsAux b n n []
-
-/-- `helpers.from_base_digits` -/
+/-- `helpers.from_base_digits`: Horner -/
 def fromDigits (b : Nat) (ds : List Nat) : Nat := ds.foldl (fun r d => b * r + d) 0
 
 /-- `helpers.from_base_alphabet` (`alphabet.find` of a missing character is −1 in Python; the model
-    is used only on characters of the alphabet and says so: `none` otherwise) -/
-def fromAlphabet (α : Str) (s : Str) : Option Nat :=
-  s.foldl (fun r c => match r with
-    | none => none
-    | some r => if α.contains c then some (α.length * r + α.idxOf c) else none) (some 0)
+    says `none` there and is used only on characters of the alphabet) -/
+def alphaStep (α : Str) (r : Option Nat) (c : Nat) : Option Nat :=
+  match r with
+  | none => none
+  | some r => if α.contains c then some (α.length * r + α.idxOf c) else none
+
+def fromAlphabet (α : Str) (s : Str) : Option Nat := s.foldl (alphaStep α) (some 0)
 
 /-- `helpers.to_base_alphabet` -/
 def toAlphabet (α : Str) (n : Nat) : Str := (toDigits α.length n).map (fun i => α.getD i 0)
@@ -28,5 +33,20 @@ def uncompressNum (numAlpha : Str) (s : Str) : Option Nat := fromAlphabet numAlp
 /-- `uncompress_str` -/
 def uncompressStr (strAlpha base27 : Str) (s : Str) : Option Str :=
   (fromAlphabet strAlpha s).map (toAlphabet base27)
+
+/-- the digit loop of the `τ` element: `for i in range(e, -1, -1): digit, n = divmod(n, b ** i)`.
+    `e` is `int(log_b n)` computed **in floating point** in the real code; here it is a parameter. -/
+def toBaseLoop (b : Nat) : Nat → Nat → List Nat
+  | 0, n => [n]
+  | e + 1, n => (n / b ^ (e + 1)) :: toBaseLoop b e (n % b ^ (e + 1))
+
+/-- `to_base(n, alphabet)`: each digit indexes the alphabet cyclically (`index(rhs, digit)`) -/
+def toBaseAlpha (α : Str) (e n : Nat) : Str := (toBaseLoop α.length e n).map (fun d => α.getD (d % α.length) 0)
+
+/-- `øC` : the program text of a compressed number -/
+def compressNum (numAlpha : Str) (e n : Nat) : Str := 187 :: toBaseAlpha numAlpha e n ++ [187]
+
+/-- `øc` : the program text of a compressed lowercase-and-space string (`N` = its base-27 value) -/
+def compressStr (strAlpha : Str) (e N : Nat) : Str := 171 :: toBaseAlpha strAlpha e N ++ [171]
 
 end Vy
